@@ -63,7 +63,10 @@ func run(doc, mode string) (out string, err error, pan string) {
 }
 
 func lineAlphabet(u string) []string {
-	return []string{"- a", "- b", u + "- a", u + "- b", u + u + "- a", u + u + u + "- a", u[:len(u)/2] + " - a", u + "a", u + "-", "\t " + "- a", "", "   ", "# h", "* a", "+ b.go", u + "* b"}
+	return []string{"- a", "- b", u + "- a", u + "- b", u + u + "- a", u + u + u + "- a", u[:len(u)/2] + " - a", u + "a", u + "-", "\t " + "- a", "", "   ", "# h", "* a", "+ b.go", u + "* b",
+		u + "- x/y",  // not a valid path element: dry run must reject it (in both builds, whatever was rendered before)
+		u + "- <&>\"", // characters with special treatment in JSON / HTML
+	}
 }
 
 // cases enumerates every case in a fixed order; want(docIdx) says whether the document is needed
